@@ -35,10 +35,6 @@ structure IsAuto (n : Nat) (ty : Nat → Nat) (nb : Nat → List Nat) (dA dB : N
 
 open Dassh.Table
 
-/-- donor map as a total function: an interior cell (`i < nint`), or an exterior cell without donor, is its own
-donor (its swirl term vanishes) -/
-def donorN (nint : Nat) (d : Nat → Option Nat) (i : Nat) : Nat := if i < nint then i else (d i).getD i
-
 theorem closed_of_certs {n nint : Nat} {tyf : Nat → Nat} {nb : Nat → List Nat} {dA dB : Nat → Option Nat} {π : Nat → Nat}
     (hs : symCert n nb = true) (ha : autoCert n nint tyf nb dA dB π = true) : Closed n nb (donorN nint dA) := by
   obtain ⟨_, _, hall⟩ := autoCert_sound ha
